@@ -41,7 +41,10 @@ structure WF (cfg : Cfg) (M : Manifest) (m : Mem) (c : Choice) (d : Disk) : Prop
               ∨ (∃ i a, c.accs[i]? = some a ∧ p = newPath m i a)
   new_nodup : (pns c.newLive).Nodup
   manifest : ∀ a ∈ c.accs, M a.cid = some (a.files.map Prod.fst)
-  /-- the final write_toml of `loop()` stores nothing and is not reached right after a restart -/
+  /-- the final write_toml of `loop()` stores nothing; the case right after a restart (`restartedFrom = cstep`) is
+      EXCLUDED here.  It is reachable — the restart of a finished run — and leaves, by design (62f494c), a record
+      from which the next restart stops: `Infretis.C08.finished_run_restart_refuses` (audit 2026-09-30; the
+      earlier wording "is not reached right after a restart" was wrong) -/
   final : c.inc = false → c.accs = [] ∧ m.restartedFrom ≠ some m.cstep
 
 theorem rowsOK_iff' (df : DataFile) (act : List Nat) :
